@@ -229,13 +229,27 @@ class C10(PropertyCheck):
             "plus pairs/triples of rows and 3-label rows; ref: every list of <=2 (thorough <=3) tokens with "
             "boundaries in -1..3 (quick -1..2 for two tokens), in_lens 0..R/omitted, other_lens 0..5/omitted; tokens: "
             "every such list against every slice in -1..4 squared as one batch, partial x retain x ref_lens. "
+            "FREE VALUES (per case a magnitude class small / int32 range / int64 range and the integer dtypes of "
+            "data and lengths, int32 only where every value fits and no boundary +- lobe / + start can wrap): the "
+            "enumerations above run over boundary SYMBOLS, a missing boundary (-1) is instantiated by any negative "
+            "number, the token id (documented as ignored by 'ref', only copied by the chunker) by an integer of "
+            "either sign -- every one-token 'ref' list once with a non-negative and once with a negative id --, the "
+            "alignment labels are renamed by an injective map into integers of either sign, other_lens of 'ref' also "
+            "negative / far out, other_lens handed to 'fixed' / 'ali' (unused there) arbitrary, 'fixed' gets feature "
+            "tensors of 8 dtypes x {zeros, nan, inf, negative, counting} x trailing shapes (none, 0, 1, 2, 3, 2x2), "
+            "random batches also hold known boundaries / slices near 2**31 and 2**40; directory level: token ids "
+            "small / far out / negative, labels renamed, missing boundary pairs any negative, float32 / float64 "
+            "features. "
             "every slice/tokens case draws its entry point (functional / module, positional / keywords with "
             "documented defaults omitted) and the memory layout of its arguments (contiguous / stride-0 expanded / "
             "strided view). dir (both tiers): chunk-torch-spect-data-dir --num-workers 0 on small directories (tiled, "
             "random, mixed token segmentations); every subset of {--partial-tokens, --retain-token-boundaries, "
-            "--quiet} x policy x {valid-only, --pad-mode} (3 rounds, window type, lobe 0..3, constant/replicate "
+            "--quiet} x policy x {valid-only, --pad-mode} (3 rounds, window type, lobe 0..3, constant/replicate/reflect "
             "padding and pad constant drawn), every non-default file-layout option (--file-prefix, --file-suffix, "
             "the three sub-directory names, default --format-utt, no ali/, no ref/) alone and all together; "
+            "plus: the documented command-line defaults (--policy fixed, --window-type symmetric, --lobe-size 0) left "
+            "off the command line, all at once and one at a time, for every policy; --pad-mode reflect; an utterance of "
+            "10**5+k frames cut near its end (default names wider than their field) with and without padding. "
             "thorough adds 160 random runs. "
             "non-trivial: some configuration returns >= 2 windows, or keeps >= 1 token and drops >= 1, or a "
             "directory run writes >= 2 chunks; distinct by the case json")
@@ -243,10 +257,17 @@ class C10(PropertyCheck):
         "model is the model of the repaired tree (fixes/C10-*.diff); on the pinned tree the four repaired "
         "places raise or return an out-of-sequence window and the check reports them",
         "only in-domain lengths are specified: 0 <= in_lens <= T; other_lens any integer; boundaries any integer",
+        "integer tensors are int64 (documented) or int32; magnitudes stay below 2**40 for known boundaries, slices "
+        "and lengths (the code's boundary +- lobe_size / + start must not wrap), ids / labels / missing boundaries "
+        "span the whole int64 range; for an int32 'ref' input the returned slices may be int32 (copied boundaries)",
+        "directory level: a source with a negative token id is not well-formed by the library validator's rule, so "
+        "the validator clause on the output is skipped for it (all other clauses are evaluated)",
         "torch primitives (arange, nonzero, boolean-mask indexing, gather, masked_scatter_) at their documented meaning",
         "policy/window_type/lobe_size argument validation is checked only as 'RuntimeError/ValueError is raised'",
         "directory level: features/alignments of a chunk are compared with the source frames restricted to the "
-        "window under constant / replicate padding (reflect is C09's); multi-worker runs are not exercised (C17)",
+        "window under constant / replicate / reflect padding (Python-side oracle, Lean chunkSeq, and the model of "
+        "the whole worker); reflect padding of at least T frames must raise NotImplementedError; multi-worker runs "
+        "are not exercised (C17)",
     ]
     exhaustive = {"quick": True, "thorough": True}
     quick_budget_s = 200
@@ -407,12 +428,14 @@ class C10(PropertyCheck):
         segs = [(s, e) for s in rng_b for e in rng_b]
         segs_small = [(s, e) for s in range(-1, 3) for e in range(-1, 3)]
         for sg in segs:
-            for sign in (1, -1):     # every one-token list with a non-negative and with a negative token id
+            first = rng.choice([1, -1])
+            for sign in (first, -first):   # every one-token list with a non-negative and with a negative token id
                 pf = draw_profile(rng)
                 tk = tok_of(rng, pf["mag"], *sg)
                 if (tk[0] >= 0) != (sign > 0):
                     tk[0] = -tk[0] - 1
-                yield self.ref_case(rng, pf, 1, 1, [[tk]], lobes, self.ref_opts(rng, 1, True, pf["mag"]))
+                ll = lobes if big or sign == first else sorted(rng.sample(lobes, 2))
+                yield self.ref_case(rng, pf, 1, 1, [[tk]], ll, self.ref_opts(rng, 1, True, pf["mag"]))
         two = segs if big else segs_small
         for a, b in itertools.product(two, two):
             pf = draw_profile(rng)
